@@ -149,17 +149,23 @@ class Facts:
         self.roots = []
         self.crate_of_root = {}
         self.counts = {}
+        self.consts = {}
         for c in CRATES:
             j = json.load(open(os.path.join(d, "facts", c + ".json")))
-            self.counts[c] = len([f for f in j["fns"] if not f.get("external")])
+            self.counts[c] = len([f for f in j["fns"] if not f.get("external") and f.get("kind") != "Promoted"])
             for f in j["fns"]:
                 if f.get("external"):
                     # library generic instantiated with a workspace closure: body available for the walk only
                     self.fns.setdefault(f["id"], Fn(f, "ext"))
+                elif f.get("kind") == "Promoted":
+                    # promoted constant bodies: looked up by id only, never treated as functions of the crate
+                    self.fns[f["id"]] = Fn(f, "promoted")
                 else:
                     self.fns[f["id"]] = Fn(f, c)
             for a in j["adts"]:
                 self.adts.setdefault(a["path"], a)
+            for k in j.get("consts", []):
+                self.consts[k["id"]] = k
             for n in j["instances"]["nodes"]:
                 # nodes of different crates with the same key are identical by construction
                 if n["key"] not in self.inst or (n["has_mir"] and not self.inst[n["key"]]["has_mir"]):
